@@ -48,10 +48,10 @@ func probeMain() {
 }
 
 var probeDateRe = regexp.MustCompile(`\(?\bdate\)?\s*[<>]=?\s*\(?(toDate\()?'\d{4}-\d{2}-\d{2}'\)*`)
-var tsBoundRe = regexp.MustCompile(`timestamp_ns\)?\s*[<>]=?\s*\(?\d+\)?`)
+var probeTsRe = regexp.MustCompile(`timestamp_ns\)?\s*[<>]=?\s*\(?\d+\)?`)
 
 func bounds(sqlText string) string {
-	return strings.Join(append(probeDateRe.FindAllString(sqlText, -1), tsBoundRe.FindAllString(sqlText, -1)...), "  ")
+	return strings.Join(append(probeDateRe.FindAllString(sqlText, -1), probeTsRe.FindAllString(sqlText, -1)...), "  ")
 }
 
 func render(p shared.SQLRequestPlanner, ctx *shared.PlannerContext) string {
